@@ -34,7 +34,7 @@ COMPONENTS = {"real": ["dali.memory.location.MemoryValue.write / write_raw, valu
 PROBES = ["fault-answer-no", "fault-echo-other", "fault-garble", "fault-garble-same-bits", "fault-drop", "fault-dtr0-frozen", "fault-dtr0-stuck-once", "fault-stays-locked",
           "fault-odd-unlock-value", "fault-short-bank", "fault-foreign-frame", "readonly-refused", "device-addressing",
           "ignore-feedback", "short-string-write", "initially-unlocked", "value-level-write-int", "value-level-write-mask",
-          "value-level-write-tmask", "value-level-write-str"]
+          "value-level-write-tmask", "value-level-write-str", "value-level-write-out-of-range"]
 DOCUMENTED = (MemoryLocationNotWriteable, MemoryWriteFailure, MemoryWriteError, ResponseError)
 
 
@@ -76,12 +76,14 @@ def gen_base(seed, tier="quick"):
             if plain:
                 lo, hi = (-(1 << (nbits - 1)), (1 << (nbits - 1)) - 1) if v.signed else (0, (1 << nbits) - 1)
                 opts += [["int", r.choice([lo, hi, hi - 1, r.randrange(lo, hi + 1), r.randrange(lo, hi + 1)])]] * 2
+                # a number that does not fit the value's locations cannot be written: it has to be refused
+                opts += [["int-bad", r.choice([hi + 1, lo - 1, hi + 1 + r.getrandbits(12), (hi + 1) * 256 + 5, -1 if lo == 0 else lo - 300])]]
         elif is_str:
             sl = r.choice([0, 1, n - 1, n, r.randrange(0, n + 1)])
             opts.append(["str", "".join(chr(r.randrange(0x20, 0x7F)) for _ in range(sl))])
         if opts:
             via = r.choice(opts)
-            raw = list(expected_raw(v, via))
+            raw = list(expected_raw(v, via)) if via[0] != "int-bad" else []
     return {"engine": "busim", "property": PROP, "seed": seed, "bank": key, "value": v.name, "raw": raw, "via": via,
             "short_write": ln != n, "lock": r.choice([0xFF, 0xFF, 0x55, 0x12, 0x00]),
             "kind": r.choice(["gear", "gear", "device"]), "short": r.randrange(64),
@@ -175,6 +177,8 @@ def run_plan(plan):
             kw.pop("allow_short_write")
             probes["value-level-write-" + via[0].lower()] = 1
             gen = v.write(addr, via[0] if via[0] in ("MASK", "TMASK") else via[1], **kw)
+            if via[0] == "int-bad":
+                kw = {}
         else:
             gen = v.write_raw(addr, raw, **kw)
         sr = busim.run_sequence(gen, bus, answer_faults=answer_faults, cap=400, env=env, log=log)
@@ -182,6 +186,32 @@ def run_plan(plan):
         sr = busim.SeqRun()
         sr.status, sr.exc = "raise", e
     writable = memsim.is_writable(v)
+    if plan.get("via") and plan["via"][0] == "int-bad":
+        probes["value-level-write-out-of-range"] = 1
+        if sr.status != "raise":
+            V("out-of-range-value-accepted", "%s.%s.write(%d): %s; the %d location(s) now hold %s" % (
+                key, v.name, plan["via"][1], sr.status, len(v.locations),
+                [bank.cells[l.address] for l in v.locations]), site="accepted")
+        elif sr.steps:
+            V("out-of-range-value-accepted", "%s.%s.write(%d): refused only after %d commands" % (
+                key, v.name, plan["via"][1], sr.steps), site="refused-late")
+        if [a for a in range(256) if bank.cells[a] != before[bank.number][a]]:
+            V("other-location-changed", "%s.%s.write(%d) changed the unit's memory" % (key, v.name, plan["via"][1]),
+              site="out-of-range")
+        for x in vs:
+            add_violation(res, x)
+        res["digest"] = log.digest()
+        res["shape"] = log.digest()[:16] + "|bad-value"
+        res["events"] = len(log)
+        res["vtime_s"] = bus.t_us * 1e-6
+        res["nontrivial"] = False
+        res["probes"] = dict(probes)
+        res["faults"] = {}
+        res["_steps"], res["_nwrites"] = 0, 0
+        if res["violations"]:
+            res["plan"] = plan
+        res["sample"] = None
+        return res
     locs = [l.address for l in v.locations][:len(raw)]
     want = dict(zip(locs, raw))
     fired = bool(foreign_fired) or (fk in ("freeze", "stays-locked", "odd-unlock", "short-bank")) or \
